@@ -227,6 +227,8 @@ pub struct Scenario {
     pub sample_until: u64,
     /// open every gate at this (even) instant even if no client does (0 = only at Q1)
     pub default_cap: usize,
+    /// perturbation must leave this scenario's delays alone
+    pub fixed_timing: bool,
 }
 
 impl Scenario {
